@@ -397,6 +397,34 @@ pub fn filter_atom(pair: Pair<Rule>) -> Parsed<FilterAtom> {
                 .ok_or("Logical expression is absent".into())
         }
         Rule::comp_expr => Ok(FilterAtom::cmp(Box::new(comp_expr(rule)?))),
+        Rule::fn_atom => {
+            let mut children = rule.into_inner();
+            let lhs = children.next().ok_or(JsonPathError::empty("function atom"))?;
+            match children.next() {
+                Some(op) => {
+                    let lhs = comparable(lhs)?;
+                    let rhs =
+                        comparable(children.next().ok_or(JsonPathError::empty("comparison"))?)?;
+                    Ok(FilterAtom::cmp(Box::new(Comparison::try_new(
+                        op.as_str(),
+                        lhs,
+                        rhs,
+                    )?)))
+                }
+                None => {
+                    let t = test(lhs)?;
+                    if let Test::Function(tf) = &t {
+                        if tf.is_comparable() {
+                            return Err(JsonPathError::InvalidJsonPath(format!(
+                                "Function {} returns a value and can not be used as a test",
+                                tf
+                            )));
+                        }
+                    }
+                    Ok(FilterAtom::test(t, false))
+                }
+            }
+        }
         Rule::test_expr => {
             let mut not = false;
             let mut test_expr = None;
